@@ -48,9 +48,19 @@ func mutateMsg(t *rapid.T, msg []byte) ([]byte, string) {
 }
 
 func genMsg(t *rapid.T, maxLen int) []byte {
-	n := rapid.SampledFrom([]int{0, 1, 31, 32, 33, 64, 127, 128, 129, 1000, maxLen, -1}).Draw(t, "msglen")
+	n := rapid.SampledFrom([]int{0, 1, 31, 32, 33, 64, 127, 128, 129, 1000, maxLen, -1, -2, -2}).Draw(t, "msglen")
+	if n == -2 {
+		// just below / at / a little above a power of two (block sizes, stack buffers of 2^k (+ a
+		// header) bytes): 2^k + j for j in -1 .. 72
+		k := rapid.IntRange(5, 12).Draw(t, "msglen.k")
+		j := rapid.SampledFrom([]int{-1, 0, 1, -3}).Draw(t, "msglen.j")
+		if j == -3 {
+			j = uniformInt(t, 2, 72, "msglen.jj")
+		}
+		n = 1<<uint(k) + j
+	}
 	if n < 0 || n > maxLen {
-		n = rapid.IntRange(0, maxLen).Draw(t, "msglen.any")
+		n = uniformInt(t, 0, maxLen, "msglen.any")
 	}
 	if n > 300 {
 		// long messages: repeat a short random pattern (keeps the draw log small)
